@@ -225,6 +225,19 @@ def r03_7(ctx):
                 continue
             n += 1
             exits = [x for x in ast.walk(l) if isinstance(x, (ast.Break, ast.Continue, ast.Return)) and _nearest_for(x, f.node) is l]
+            # `continue` for a level whose own index set is empty (len(rows) == 0 / not rows): there is nothing to contribute
+            def _empty_guard(x):
+                if not isinstance(x, ast.Continue):
+                    return False
+                names = {y.id for y in ast.walk(l.target) if isinstance(y, ast.Name)}
+                for (t_, pol, nd) in guards.path_conditions(x, stop=l):
+                    tt = t_.replace(' ', '')
+                    for v_ in names:
+                        if (tt in ('len(%s)==0' % v_, 'notlen(%s)' % v_) and pol) or (tt in ('len(%s)' % v_, v_, 'len(%s)>0' % v_, 'len(%s)!=0' % v_) and not pol) \
+                                or (tt == 'not' + v_ and pol):
+                            return True
+                return False
+            exits = [x for x in exits if not _empty_guard(x)]
             if exits:
                 ctx.violated('R03.7', q, 'for %s in %s: %s' % (src(l.target), it, type(exits[0]).__name__.lower()), exits[0],
                              'a level of the declared range is skipped: the hierarchical matrix needs the contribution of EVERY level in the range '
